@@ -108,6 +108,18 @@ def _top(path):
     return path.split("/")[0] if path and "/" in path else path
 
 
+def _diverging_cause(joint, solos, i, font):
+    """first intermediate of configuration i that differs between the joint and its solo build, classified"""
+    for f in sorted(solos[i]["listing"]):
+        if f == font or f.endswith(".rsp") or f == "build.ninja" or f.endswith("parts-merged.json"):
+            continue
+        ja, sb = joint["listing"].get(f), solos[i]["listing"][f]
+        if ja != sb:
+            cross = any(k != i and solos[k]["listing"].get(f) == ja and ja is not None for k in range(len(solos)))
+            return ("cross-config:" if cross else ("missing:" if ja is None else "differs:")) + _top(f), f
+    return None, None
+
+
 def judge_pair(case, res):
     lab = {r.get("label"): r for r in orch.invokes(res)}
     joint = lab["joint"]
@@ -139,6 +151,12 @@ def judge_pair(case, res):
                 if "out" in s and s["status"] != ["exit", 0]:
                     failing = failing or s["rule"]
         cause = "step:" + failing if failing else ("ninja:" + (err or "").split(",")[-1].strip()[:40] if err else "driver")
+        failing_out = next((s["out"] for n in joint.get("ninja", []) for s in n["steps"] if "out" in s and s["status"] != ["exit", 0]), None)
+        if failing == "write_font" and failing_out in m["fonts"]:
+            # a font step that fails only in the joint build: was it fed another configuration's intermediate?
+            c2, _f = _diverging_cause(joint, solos, m["fonts"].index(failing_out), failing_out)
+            if c2 and c2.startswith("cross-config:"):
+                cause = c2
         out.append({"class": "joint-fails-solo-succeeds", "detail": {"part": "A", "cause": cause, "differing": ",".join(m["differing"]),
                                                                       "formats": m["formats"], "tail": (joint.get("steps_tail") or joint.get("driver_tail") or "")[-500:]}})
         return out
@@ -147,16 +165,8 @@ def judge_pair(case, res):
         if a == b and a is not None:
             continue
         # root cause: first intermediate of this configuration that differs between joint and solo
-        cause, div = "unknown", None
-        for f in sorted(solos[i]["listing"]):
-            if f == font or f.endswith(".rsp") or f == "build.ninja" or f.endswith("parts-merged.json"):
-                continue
-            ja, sb = joint["listing"].get(f), solos[i]["listing"][f]
-            if ja != sb:
-                div = f
-                cross = any(k != i and solos[k]["listing"].get(f) == ja and ja is not None for k in range(len(solos)))
-                cause = ("cross-config:" if cross else ("missing:" if ja is None else "differs:")) + _top(f)
-                break
+        cause, div = _diverging_cause(joint, solos, i, font)
+        cause = cause or "unknown"
         out.append({"class": "joint-differs-from-solo", "detail": {"part": "A", "cause": cause, "font": font, "first_diverging_file": div,
                                                                     "differing": ",".join(m["differing"]), "formats": m["formats"], "warm": m["warm"]}})
     return out
